@@ -50,6 +50,9 @@ def denote : Sp → FieldDecl
   | .scls d _ => d
   /- "c is a tuple of 3: integer, string, float: Tuple[Integer, String, Float]" - one field per position -/
   | .tup585 x y | .tupTyping x y | .tupSub x y | .tupCall x y => .tuplePos [denote x, denote y] false
+  /- "a: Integer(maximum=100) | Foo | str | 529 … a can be assigned … the number 529": the literal is one more
+     alternative, an Enum of exactly that value -/
+  | .pipeLit x v _ => .anyOf [denote x, .enumLit [v]]
 
 /-! ### the spelling forms of one meaning -/
 
@@ -108,6 +111,12 @@ inductive SameMeaning : Sp → Sp → Prop where
   /-- `tuple[X, Y] ~ typing.Tuple[X, Y] ~ Tuple[X, Y] ~ Tuple(items=[X, Y])` -/
   | tup (f g : CollForm) {x x' y y' : Sp} :
       SameMeaning x x' → SameMeaning y y' → SameMeaning (mkTup f x y) (mkTup g x' y')
+  /-- `X | 529 ~ AnyOf[X, Enum(values=[529])]` (and `X | 529 ~ X' | 529`) -/
+  | pipeLit {x y : Sp} (v : PyVal) (n m : Nat) : SameMeaning x y → SameMeaning (.pipeLit x v n) (.pipeLit y v m)
+  | pipeLitAnyOf {x y : Sp} (v : PyVal) (n m : Nat) :
+      SameMeaning x y → SameMeaning (.pipeLit x v n) (.anyOf y (.lit (.enumLit [v]) m))
+  | anyOfPipeLit {x y : Sp} (v : PyVal) (n m : Nat) :
+      SameMeaning x y → SameMeaning (.anyOf x (.lit (.enumLit [v]) m)) (.pipeLit y v n)
 
 /-! ### the supported region -/
 
@@ -116,6 +125,7 @@ def isFieldExpr : Sp → Bool
   | .fcls _ | .finst _ | .lit _ _ | .bareCls _ | .bareInst _ | .sub _ _ | .call _ _
   | .mapBare | .mapInst | .mapSub _ _ | .mapCall _ _ | .anyOf _ _ | .tupSub _ _ | .tupCall _ _ => true
   | .pipe x _ => isFieldExpr x
+  | .pipeLit x _ _ => isFieldExpr x
   | _ => false
 
 /-- the expression is the name of a Structure class (usable wherever a Field class is, except that it has no
@@ -185,6 +195,7 @@ def supported (tm : TypeMap) : Sp → Bool
   | .tup585 x y | .tupTyping x y => supported tm x && supported tm y
   | .tupSub x y => supported tm x && supported tm y && itemOk x && itemOk y
   | .tupCall x y => supported tm x && supported tm y && isFieldOrStruct x && isFieldOrStruct y
+  | .pipeLit x v _ => supported tm x && isFieldExpr x && scalarDefault v
   | .optional x => supported tm x && !unionLike x
   /- `None` may be either member (`Union[None, int]`, `AnyOf[None, Integer]`, `None | int`) -/
   | .union x y =>
@@ -207,7 +218,8 @@ def supported (tm : TypeMap) : Sp → Bool
 def DefaultSp.value : DefaultSp → Option (PyVal × PyVal)
   | .none => Option.none
   | .eq v _ => some (v, v)
-  | .kw v _ => some (v, v)
+  /- `default=None` is the parameter's own default: no default -/
+  | .kw v _ => if v.isNone then Option.none else some (v, v)
   | .eqF p _ => some (p, factoryTag)
   | .kwF p _ => some (p, factoryTag)
 
@@ -245,7 +257,7 @@ def fieldSupported (O : Oracles) (tm : TypeMap) (_future : Bool) (fs : FieldSp) 
   && (match fs.dflt with
       | .none => true
       | .eq v _ => eqDefault v && fs.mode == .ann
-      | .kw v _ => scalarDefault v && kwAllowed fs.ty && (truthy v || defaultOk O (denote fs.ty) v)
+      | .kw v _ => kwDefault v && kwAllowed fs.ty && (truthy v || v.isNone || defaultOk O (denote fs.ty) v)
       | .eqF _ _ => fs.mode == .ann
       | .kwF _ _ => kwAllowed fs.ty)
 
@@ -263,6 +275,7 @@ def documentedSp : Sp → Bool
   | .scls d _ => isStructDecl d
   | .tup585 x y | .tupTyping x y | .tupSub x y => documentedSp x && documentedSp y
   | .tupCall x y => documentedSp x && documentedSp y && isFieldOrStruct x && isFieldOrStruct y
+  | .pipeLit x v _ => documentedSp x && isFieldExpr x && scalarDefault v
   | .optional x => documentedSp x
   | .union x y | .anyOf x y | .pipe x y =>
     (isNoneLit x || documentedSp x) && (isNoneLit y || documentedSp y) && !(isNoneLit x && isNoneLit y)
@@ -275,7 +288,7 @@ def documentedField (fs : FieldSp) : Bool :=
   && (match fs.dflt with
       | .none => true
       | .eq v _ => eqDefault v && fs.mode == .ann
-      | .kw v _ => scalarDefault v && kwAllowed fs.ty
+      | .kw v _ => kwDefault v && kwAllowed fs.ty
       | .eqF _ _ => fs.mode == .ann
       | .kwF _ _ => kwAllowed fs.ty)
 
@@ -368,11 +381,41 @@ def allDistinct : List Obj → Bool
     `C13.elabField_flatten` -/
 def flatRegion (tm : TypeMap) (fs : FieldSp) : Bool :=
   fs.mode == .ann && isUnionTree fs.ty && leavesOk tm fs.ty && allDistinct (flatObjs tm fs.ty)
-  && (match fs.dflt with | .none => true | _ => false)
+  && (match fs.dflt with | .none => true | .eq v _ => eqDefault v | .eqF _ _ => true | _ => false)
 
-/-- documented meaning there: the flattened AnyOf; optional iff `None` is one of the flattened alternatives or the
-    name is listed in `_optional` -/
-def flatMeaning (fs : FieldSp) : FieldRes :=
-  .field (.anyOf (flatAlts fs.ty)) (!((flatAlts fs.ty).any isNoneF || fs.inOptional)) none
+/-- the declaration such an annotation stands for: the AnyOf of the flattened alternatives -/
+def flatDecl (fs : FieldSp) : FieldDecl := .anyOf (flatAlts fs.ty)
+
+/-- optional iff `None` is one of the flattened alternatives or the name is listed in `_optional` -/
+def flatOptional (fs : FieldSp) : Bool := (flatAlts fs.ty).any isNoneF || fs.inOptional
+
+/-- documented meaning there (same shape as `fieldMeaning`): the default, if any, must be valid for the flattened
+    AnyOf; required iff there is no default and the field is not optional -/
+def flatMeaning (O : Oracles) (fs : FieldSp) : R FieldRes :=
+  match fs.dflt.value with
+  | Option.none => .ok (.field (flatDecl fs) (!flatOptional fs) Option.none)
+  | some (v, stored) =>
+    bindE (tryDefault O (flatDecl fs) v) fun _ => .ok (eqResult (flatDecl fs) (flatOptional fs) stored)
+
+/-- the union of the two proved regions, and the documented meaning on it -/
+def fieldRegionX (O : Oracles) (tm : TypeMap) (sc : Scope) (future : Bool) (fs : FieldSp) : Bool :=
+  (flatRegion tm fs && stringOk sc future fs) || fieldSupportedAt O tm sc future fs
+
+def fieldMeaningX (O : Oracles) (tm : TypeMap) (fs : FieldSp) : R FieldRes :=
+  if flatRegion tm fs then flatMeaning O fs else fieldMeaning O fs
+
+def classRegionX (O : Oracles) (tm : TypeMap) (c : ClassSp) : Bool :=
+  c.fields.all (fieldRegionX O tm c.scope c.future)
+
+/-- the same field in two declarations of the (extended) region: same name, same documented meaning - e.g.
+    `Union[Union[a, b], None]`, `a' | b' | None`, `Optional[Union[a, b']]` … with each leaf in any of its spellings -/
+structure FieldSameX (O : Oracles) (tm : TypeMap) (a b : FieldSp) : Prop where
+  name : a.name = b.name
+  meaning : fieldMeaningX O tm a = fieldMeaningX O tm b
+
+inductive ClassSameX (O : Oracles) (tm : TypeMap) : List FieldSp → List FieldSp → Prop where
+  | nil : ClassSameX O tm [] []
+  | cons {a b : FieldSp} {as bs : List FieldSp} :
+      FieldSameX O tm a b → ClassSameX O tm as bs → ClassSameX O tm (a :: as) (b :: bs)
 
 end Typedpy.Elab
